@@ -133,6 +133,48 @@ def schedules(rng, steps, tier, nthreads):
     return out
 
 
+def editor_before_scan_part(r):
+    """(fixed, sequential) the editor analyses ONE module of an import chain before the workspace scan runs: everything
+    the other files define and use is indexed all the same - the index after `editor, then scan` holds exactly the
+    entries of the other files that `scan` alone produces (and the model's)"""
+    v = r.verdict
+    chain = {"conftest.py": "from lib_a import *\n", "lib_a.py": "from lib_b import *\n" + FIX % "fa",
+             "lib_b.py": 'pytest_plugins = ["lib_c"]\n' + FIX % "shared" + "\n@pytest.fixture\ndef fb(shared):\n    return 2\n",
+             "lib_c.py": FIX % "fc", "test_use.py": FIX % "shared" + "\ndef test_use(fa, fb, fc, shared):\n    pass\n"}
+    cases = core.Cases()
+    names = []
+    for j, opened in enumerate([None, "lib_a.py", "lib_b.py", "conftest.py"]):
+        name = "es%d" % j
+        names.append((name, opened))
+        cases.case(name, {"opened_before_scan": opened})
+        for k, (p, t) in enumerate(sorted(chain.items())):
+            cases.text("f%d" % k, t); cases.raw("disk %s f%d" % (p, k))
+        if opened:
+            cases.op("analyze", opened, "f%d" % sorted(chain).index(opened))
+        cases.op("scan")
+        for p in sorted(chain):
+            cases.q("defs", p); cases.q("usages", p)
+        cases.q("avail", "test_use.py"); cases.q("resolve", "test_use.py", "fb"); cases.q("resolve", "test_use.py", "fc")
+    ia, ma, sp = r.run_cases(cases, tag="edscan")
+    r.correspond(cases, ia, ma)
+    ref = names[0][0]
+    nq = max(k[1] for k in cases.queries if k[0] == ref)
+    n = 0
+    for (name, opened) in names[1:]:
+        off = 1        # the extra `analyze` op shifts the indices of this case by one
+        for idx in range(1, nq + 1):
+            q = cases.queries.get((ref, idx))
+            if q is None or q[0] != "q":
+                continue
+            n += 1
+            a, b = ia.get((ref, idx)), ia.get((name, idx + off))
+            if a != b:
+                msg = (f"{' '.join(q)}: after `scan` alone the answer is {a}; with {opened} analysed by the editor before the scan "
+                       f"it is {b} — entries of other files are lost (or invented)")
+                v.violation(f"{name}-{idx}", msg, f"# {msg}\n" + cases.replay_text(ref) + cases.replay_text(name)); break
+    r.stats["editor_before_scan_answers_compared"] = n
+
+
 def run(tier, seed):
     r = Run(PROP, MODULE, THEOREMS, tier, seed)
     if not r.prepare():
@@ -289,6 +331,7 @@ def run(tier, seed):
         got = conc.parse_model_answer(ma.get(k, "INCOMPLETE"))
         if got != want:
             r.corr_bad.append((k, ["conc", mp, where], str(want), str(got)))
+    editor_before_scan_part(r)
     r.evaluations = nruns
     r.stats["runs_by_scenario_kind"] = kinds
     r.stats["runs_equal_to_a_sequential_order_only_up_to_cross_file_order"] = norder
